@@ -84,16 +84,19 @@ Print Assumptions C25_nest_min_trials.
     the arguments of Nest(outer, inner) denote when [So], [Si] are those of the outer and
     inner block: [To * Ti] trials; the outer block's crossed factors with sustain count [Ti];
     the outer crossings with chunks and multiplicities multiplied by [Ti]; the inner crossings
-    repeated with their own chunks (harness/docsem.py builds the same form from the
-    documentation of Nest, and c25.py compares the two on every run).
-    Under the guard [nestable_b So Si] - non-derived factors of sustain count 1, no
-    constraints, no preamble trials, outer crossings over outer factors, inner crossing
-    chunks dividing the inner trial count - a sequence is valid for the Nest iff
+    repeated with their own chunks; the inner constraints with their trial windows repeated in
+    every group (harness/docsem.py builds the same form from the documentation of Nest, and
+    c25.py compares the two on every run).
+    Under the guard [nestable_b So Si] - non-derived factors of sustain count 1, no outer
+    constraints, inner constraints of the kinds AtMostKInARow / AtLeastKInARow /
+    ExactlyKInARow / ExactlyK with windows inside the inner block, no preamble trials, outer
+    crossings over outer factors, inner crossing chunks dividing the inner trial count - a
+    sequence is valid for the Nest iff
     ([groups_spec]) it has one row of [To * Ti] cells per factor, every outer factor has one
     of its levels at every trial, and
       (a) the outer block's crossed factors are constant within each group of [Ti] trials,
       (b) the group representatives [reps] satisfy every crossing of the outer block,
-      (c) every group [grp g] is a valid sequence of the inner block. *)
+      (c) every group [grp g] is a valid sequence of the inner block (crossings and constraints). *)
 Theorem C25_nest_groups :
   forall So Si s,
     nestable_b So Si = true ->
@@ -115,8 +118,22 @@ Proof.
   destruct ex_nest_seq_valid as [H1 [H2 [H3 H4]]]. repeat split; assumption.
 Qed.
 
-(** Outside the guard (derived factors, constraints, preamble trials, nested Nests, inner
-    crossings with a partial last chunk) the following part holds for every normal form: in the
+(** ... and with the inner block constraint AtMostKInARow(1, (B, b0)): 3 valid inner runs, 2 x 3 x 3
+    valid sequences, the constraint's window repeated per group. *)
+Example C25_example_groups_constraint :
+  nestable_b ex_sem_outer ex_sem_inner_c = true /\
+  length (all_valid ex_sem_inner_c) = 3 /\
+  length (all_valid (nest_sem ex_sem_outer ex_sem_inner_c)) = 18 /\
+  s_constraints (nest_sem ex_sem_outer ex_sem_inner_c)
+  = [{| k_kind := Sem.KAtMost 1; k_factor := 1; k_level := 0; k_windows := [(0, 4); (4, 8)] |}] /\
+  valid_b (nest_sem ex_sem_outer ex_sem_inner_c)
+          [[Some 1; Some 1; Some 1; Some 1; Some 0; Some 0; Some 0; Some 0];
+           [Some 1; Some 0; Some 1; Some 0; Some 0; Some 1; Some 0; Some 1]] = true.
+Proof. exact ex_nestable_c. Qed.
+
+(** Outside the guard (derived factors, outer or other kinds of constraints, preamble trials, nested
+    Nests, inner crossings with a partial last chunk - where the property fails on the real code,
+    c25.py finding nest:groups:inner-partial-chunk) the following part holds for every normal form: in the
     reference semantics a non-derived factor with sustain count [su] carries one level per
     group of [su] consecutive trials - the outer levels are held fixed over each inner run.
     Not proved outside the guard: (b) and (c) above, and associativity of nesting; the harness
